@@ -189,12 +189,18 @@ def c07(prop, tier, seed):
         # commits and rollbacks also rewrite pages
         dict(kind="cmp", K=2, PP=2, MaxLen=4, MaxStamp=3, Depth=q(tier, 6, 7), ops=CMP_EDIT + ["reimport", "commit", "rollback", "rollback_before"],
              histk=q(tier, 1, 2), replays=[("pco", "u32", 2048), ("zstd", "u64", 1024)]),
+        # four model elements per page (a raw partial page of 2-3 elements: truncations strictly inside it, appends behind it, writes with nothing pushed),
+        # at the exact scale and with one real element per model element (the whole vector is one raw partial page)
+        dict(kind="cmp", K=0, PP=4, MaxLen=5, MaxStamp=1, Depth=q(tier, 7, 8), ops=["push", "truncate", "write", "reimport"], histk=q(tier, 2, 3),
+             replays=[("pco", "u32", 1024), ("lz4", "u32", 1024), ("zstd", "u32", 1), ("pco", "u32", 1)] + q(tier, [], [("zstd", "u64", 512), ("lz4", "u64", 1)])),
     ]
-    return vec_run(prop, tier, seed, plan,
+    res = vec_run(prop, tier, seed, plan,
                    "non-trivial = length >= 3 (special-value runs) or a continuation after re-import/reset/rollback; the page index "
                    "(start/bytes/count/raw per entry, data-region length) is read from the real regions after every successful write",
                    VEC_ASSUME + ["bit-exact comparison uses a table of extreme integers / IEEE-754 special patterns (NaN payloads, +-0, "
                                  "subnormals, infinities) followed by pseudo-random bit patterns; it is a harness-side oracle (shadow list)"])
+    tr = trace_vec(prop, tier, seed, [("pco", "cmp", 0), ("lz4", "cmp", 0), ("zstd", "cmp", 0), ("pco", "cmp", 2)])
+    return add_trace_vec(res, tr)
 
 
 def reads_plan(tier):
@@ -1057,6 +1063,16 @@ def c09(prop, tier, seed):
             raise ToolError("VecConc with relocation and Dev={D37} should violate ReaderPrefix, TLC reports %s" % r37["violated"])
         sens["D37"] = r37["violated"]
         sens["relocation_design_states"] = reloc
+        # "no read blocks forever": liveness under weak fairness, no state constraint, no VIEW (small configuration)
+        live = {}
+        for kind in ("raw", "cmp"):
+            lcfg = vconc_cfg(kind, dict(prelen=1, batches=[1, 3], maxw=2, maxr=2, readers=1, depth=100000), devs_live := sorted(known_ids & {"D18"}) if kind == "cmp" else [], [], False)
+            lcfg = lcfg.replace("SPECIFICATION Spec", "SPECIFICATION FairSpec").replace("VIEW HView\n", "").replace("CONSTRAINT DepthOK\n", "") + "PROPERTY ReadsEnd\nPROPERTY WritesEnd\n"
+            rl = vlib.run_tlc("VecConc", lcfg, os.path.join(wd, "live" + kind), 4, 1500)
+            if rl["violated"]:
+                raise ToolError("VecConc liveness (%s): %s" % (kind, rl["violated"]))
+            live[kind] = rl["distinct"]; states += rl["distinct"]; trans += rl["generated"]
+        sens["liveness_ReadsEnd_WritesEnd_states"] = live
     finally:
         shutil.rmtree(wd, ignore_errors=True)
     known_lines = []
@@ -1628,7 +1644,7 @@ def c06(prop, tier, seed):
 
 @register("C19")
 def c19(prop, tier, seed):
-    r = eager_run(prop, tier, seed, ["transform", "to", "cumulative", "sum", "max", "add", "previous_value", "sum_from_indexes"], [2],
+    r = eager_run(prop, tier, seed, ["transform", "to", "cumulative", "sum", "max", "add", "previous_value", "sum_from_indexes", "transform2", "transform3", "transform4"], [2],
                   q(tier, [("bytes", "bytes"), ("pco", "pco")], [("bytes", "bytes"), ("pco", "pco"), ("bytes", "pco")]),
                   "for the closure-based methods (transform, to) the closure records the indices it is called with: after a version bump they must cover 0..len, "
                   "without one none may lie below min(max_from, stored length); the recorded computed version must change with the bump and survive re-import")
